@@ -36,6 +36,7 @@ def dispatch (st : DrvState) (ws : List String) : DrvState × String :=
   | "G1" :: op :: a => (st, handleG1 op a)
   | "M1" :: op :: a => let (m, r) := handleM1 st.merlin op a; ({ st with merlin := m }, r)
   | "S0" :: op :: a => (st, handleS0 op a)
+  | "M2" :: op :: a => (st, handleM2 op a)
   | "X1" :: op :: a => (st, handleX1 op a)
   | "T1" :: op :: a => (st, handleT1 op a)
   | "H1" :: op :: a => (st, handleH1 op a)
